@@ -349,7 +349,7 @@ def _defs_world(w: _World, entity_type, integral_type, coef_offsets, num_coord_d
 
 @rule(
     "GEN-DEFS",
-    ["C05", "C02", "C08", "C03"],
+    ["C05", "C02", "C08", "C03", "C01", "C11"],
     "FFCXBackendDefinitions.coefficient / jacobian / spatial_coordinate (with coefficient_dof_access, table_access, "
     "symbols.entity) are interpreted from source on sample table data: the defined value must be "
     "sum_ic w[offset_of_coefficient + block_size*ic + begin] * T[perm][entity][q][ic], resp. "
@@ -371,6 +371,16 @@ def gen_defs(repo, res):
     qel = Node("Element", is_quadrature=True, block_size=2, has_custom_quadrature=True)
     fq = Node("Coefficient", name="g", ufl_element=_PyCall(lambda: qel))
     T = w.table
+    from ..npmodel import NDArr as _NDArr, install_arrays as _install_arrays
+    CONCRETE_TABLES = {"FEq": lambda q_, d_: 1 if q_ == d_ else 0, "FEp": lambda q_, d_: 1 if d_ == (q_ + 1) % NQ else 0}
+    try:
+        perm_ttype = _install_arrays(Interp(repo, load_classes(repo), primary="ffcx.ir.elementtables")).call_f(
+            repo.mod("ffcx.ir.elementtables").func("analyse_table_type"),
+            [_NDArr([[[[CONCRETE_TABLES["FEp"](q_, d_) for d_ in range(NQ)] for q_ in range(NQ)]]], (1, 1, NQ, NQ))])
+    except (Raised, AnalysisError):
+        perm_ttype = "varying"   # (the classification itself is decided by TABLE-INDEX)
+    if not isinstance(perm_ttype, str):
+        perm_ttype = "varying"
     # (label, entity, integral type, function, table, restriction, coefficient, dims of (f, g), expected source indices)
     cases = [
         ("coefficient, cell, P1", "cell", "cell", fco, T("FE0", (1, 1, NQ, 3)), None, f0, (3, 6)),
@@ -380,6 +390,10 @@ def gen_defs(repo, res):
         ("coefficient, exterior facet, piecewise table", "facet", "exterior_facet", fco, T("FE3", (1, 3, 1, 3), ttype="piecewise"), None, f0, (3, 3)),
         # a blocked quadrature element tabulated at its own points: the table is the identity (concretely so here), the dofs are interleaved
         ("coefficient on a blocked quadrature element, component 1 of 2", "cell", "cell", fco, T("FEq", (1, 1, NQ, NQ), offset=1, bs=2, ttype="quadrature"), None, fq, (3, 2 * NQ)),
+        # a collocated element whose points and dofs are numbered differently (GLL points in lexicographic order, dofs by sub-entity): the table is a permutation
+        # matrix, not the identity.  Its type is whatever the IR's own classification says it is
+        ("coefficient whose table is a permutation of the identity, classified by analyse_table_type", "cell", "cell", fco,
+         T("FEp", (1, 1, NQ, NQ), ttype=perm_ttype), None, f1, (3, NQ)),
         ("jacobian component, cell", "cell", "cell", fja, T("FE4", (1, 1, 1, 3), offset=1, ttype="piecewise"), None, None, (3, 3)),
         ("jacobian component, interior facet '-'", "facet", "interior_facet", fja, T("FE5", (1, 3, NQ, 3), offset=0), "-", None, (3, 3)),
         ("jacobian component, interior facet '+'", "facet", "interior_facet", fja, T("FE5", (1, 3, NQ, 3), offset=2), "+", None, (3, 3)),
@@ -393,10 +407,11 @@ def gen_defs(repo, res):
         width = 2 if itype == "interior_facet" else 1
         offsets = {f0: 0, f1: width * dims[0], fq: width * dims[0]}
         nnodes = 3
-        identity = td.f["ttype"] == "quadrature"
+        values01 = CONCRETE_TABLES.get(td.f["name"])
+        identity = values01 is not None
         concrete = dict(CONCRETE)
         if identity:
-            concrete[td.f["name"]] = {(0, 0, q_, d_): (1 if q_ == d_ else 0) for q_ in range(NQ) for d_ in range(NQ)}
+            concrete[td.f["name"]] = {(0, 0, q_, d_): values01(q_, d_) for q_ in range(NQ) for d_ in range(NQ)}
         defs, symbols = _defs_world(w, etype, itype, offsets, nnodes)
         symbols.f["element_tables"][td.f["name"]] = w.sym(td.f["name"], "DataType.REAL")
         mt = Node("ModifiedTerminal", terminal=coef if coef is not None else Node("SpatialCoordinate"), restriction=restr, expr=None)
@@ -427,7 +442,7 @@ def gen_defs(repo, res):
             qq = 0 if fv["is_piecewise"] else q
             want = Rat.const(0)
             for ic in range(nd_):
-                tv = Rat.var(f"{fv['name']}[{perm}, {ent}, {qq}, {ic}]") if not identity else Rat.const(1 if ic == qq else 0)
+                tv = Rat.var(f"{fv['name']}[{perm}, {ent}, {qq}, {ic}]") if not identity else Rat.const(values01(qq, ic))
                 if coef is not None:
                     src = Rat.var(f"w[{offsets[coef] + fv['block_size'] * ic + fv['offset']}]")
                 else:
@@ -736,7 +751,7 @@ def gen_form(repo, res):
 
 @rule(
     "GEN-PARTITION",
-    ["C11", "C01"],
+    ["C11", "C01", "C19"],
     "IntegralGenerator.init_scopes / set_var / get_var / generate_partition interpreted on a sample factorisation "
     "graph with two quadrature rules: a value is found in the scope of the rule it was generated for and in no other "
     "rule's scope; the shared piecewise scope is a fallback for operands only and the own scope wins; a node cached in "
@@ -763,7 +778,8 @@ def gen_partition(repo, res):
             return Node("Acc", of=mt.f["name"], rule=rule.f["id"].fn() if isinstance(rule, Node) else None)
 
         def defs_get(mt, tabledata, rule, acc):
-            return Node("Section", name=f"def_{mt.f['name']}_{acc.f['rule']}", statements=[], declarations=[], input=[], output=[])
+            # a Section built by the repository's own constructor, so that its own __eq__ decides when two definitions are the same
+            return I.construct("Section", [f"def_{mt.f['name']}_{acc.f['rule']}", [], [], [], []], {})
 
         backend = Node("FFCXBackend", access=Node("Access", get=_PyCall(access_get)), definitions=Node("Defs", get=_PyCall(defs_get)))
         gen = Node("IntegralGenerator", ir=Node("IntegralIR", expression=Node("ExpressionIR", integrand=integrand)), backend=backend, _ufl_names=set())
@@ -936,3 +952,25 @@ def gen_partition(repo, res):
         if run(I, "get_var", fn["get_var"], gen, r1, "triangle", c_) is None:
             return "values of the piecewise partition are not visible to the rules"
     scenario(f"{base}.generate_partition:mode-filter", s_mode)
+
+    def s_same_definition():
+        # the spatial coordinate of a mesh and of a sub-mesh of codimension 0 are two UFL terminals that are the same quantity in the kernel: the backend hands
+        # out the same symbol and an equal definition for both - it may be emitted once only (a second `const double x_c0 = ...` is a redefinition)
+        nonlocal F
+        xa, xb = uexpr("x_of_mesh"), uexpr("x_of_submesh")
+        keep = F
+        F = Node("ExpressionGraph", nodes={
+            0: {"status": "varying", "expression": xa, "mt": Node("ModifiedTerminal", name="x"), "tr": Node("Table", name="FE_x")},
+            1: {"status": "varying", "expression": xb, "mt": Node("ModifiedTerminal", name="x"), "tr": Node("Table", name="FE_x")},
+            2: {"status": "varying", "expression": uexpr("x_times_x", [xa, xb])},
+        })
+        try:
+            I, gen, r1, r2, log = init()
+            defs, inter = gen_part(I, gen, "varying", r1, "triangle", "sv_r1")
+        finally:
+            F = keep
+        names = [d.f["name"] for d in defs]
+        if names != ["def_x_r1"]:
+            return (f"two modified terminals that the backend gives the same symbol and an equal definition (x of a mesh and of its codimension-0 sub-mesh) lead to the "
+                    f"definitions {names}: the same variable is declared {len(names)} times in one scope - the C compiler rejects the kernel (redefinition)")
+    scenario(f"{base}.generate_partition:equal-definitions-once", s_same_definition)
